@@ -218,7 +218,7 @@ def miri_tier(seed, n):
 
 
 def budget(tier):
-    return {"quick": 4000, "thorough": 200000}[tier]
+    return {"quick": 6000, "thorough": 200000}[tier]
 
 
 def run(tier, seed):
